@@ -312,7 +312,9 @@ def standalone_module(ns):
         path = root + '/Standalone/mga2gda.py'
         spec = importlib.util.spec_from_file_location('mga2gda_under_test', path)
         mod = importlib.util.module_from_spec(spec)
-        spec.loader.exec_module(mod)
+        import decimal
+        with decimal.localcontext(decimal.Context(prec=28)):     # the program computes its constants in Decimal when it starts
+            spec.loader.exec_module(mod)
         _standalone[root] = mod
     return _standalone[root]
 
